@@ -35,7 +35,10 @@ func runC12(c *eng.Ctx, tier string) {
 	// R-C12-7: "once a poll has completed every later call returns its value
 	// or a newer one" rests on polls being serialised by the single-flight key
 	// and on every differing answer being installed (C11's mechanism)
-	includeOnly(c, "R-C12-7", func(sc *eng.Ctx) { runC11(sc, "quick") }, "R-C11-5", "R-C11-8")
+	includeOnly(c, "R-C12-7", func(sc *eng.Ctx) { runC11(sc, "quick") }, "R-C11-1", "R-C11-2", "R-C11-5", "R-C11-8")
+	// R-C12-8: "exactly the bytes of some version the service served": nothing
+	// outside the store holds an alias of them (C20's copy rule)
+	includeOnly(c, "R-C12-8", func(sc *eng.Ctx) { runC20(sc, "quick") }, "R-C20-1")
 	l := moduleLocks(c)
 	accs := storeAccesses(p)
 	// R-C12-1
